@@ -287,7 +287,7 @@ def stress_threads(ctx, rnd, U):
             continue
     if len(texts) < 4:
         return
-    n_threads, per_thread = 6, {'quick': 250, 'thorough': 3000}[ctx.tier]
+    n_threads, per_thread = 8, {'quick': 600, 'thorough': 6000}[ctx.tier]
     wrong = []
     lock = threading.Lock()
     start = threading.Event()
